@@ -32,6 +32,9 @@ def programs(ctx):
         v = td.variants[-1] if td.is_enum else td.variants[0]
         if placement != "variant":
             v.fields.append(F.Field("b" if v.kind == "named" else None, "u8", plain))
+            if i % 3 == 1:
+                # and one in FRONT of the attributed field: its contribution must not be touched by the attributes of the later field
+                v.fields.insert(0, F.Field("z" if v.kind == "named" else None, "u8", plain))
         elif i % 2 == 0:
             # explicit discriminants, partly, colliding with positions: variants are ordered by declaration position, and `==` agrees with it
             td.discr = [[1, None, 0], [2, 0, None], [None, 3, 1]][(i // 6) % 3]
